@@ -53,6 +53,23 @@ def check(case):
     rho = rho / rho.diagonal().real.sum()
     pur_full = float(torch.trace(rho @ rho).real)
     regions = [list(A) for r in range(n + 1) for A in itertools.combinations(range(n), r)]
+    # unnormalised reference state for the per-pair values
+    ref_state = R.rho_ref(am, ph, V) if sc["type"] == "density" else R.psi_ref(am, ph, V)
+
+    def swapped(i, j, A):
+        bi, bj = R.index_to_row(i, n), R.index_to_row(j, n)
+        for a in A:
+            bi[a], bj[a] = bj[a], bi[a]
+        return R.row_to_index(bi), R.row_to_index(bj)
+
+    def pair_ref(i, j, A):
+        """SWAP_A value of the ordered pair (i, j): Re[w(i'|i) w(j'|j)] with the library's documented importance weights"""
+        ip, jp = swapped(i, j, A)
+        if sc["type"] == "density":
+            w = (ref_state[ip, i] / ref_state[i, i]) * (ref_state[jp, j] / ref_state[j, j])
+        else:
+            w = (ref_state[ip] / ref_state[i]) * (ref_state[jp] / ref_state[j])
+        return float(w.real)
     purity = {}
     batch = V[case["batch"]].clone()
     for ai, A in enumerate(regions):
@@ -62,6 +79,7 @@ def check(case):
         F = None
         for form in forms:
             obs = SWAP(form)
+            held = []
             Fm = torch.zeros(D, D, dtype=torch.double)
             for i in range(D):
                 for j in range(D):
@@ -71,6 +89,13 @@ def check(case):
                     require(torch.equal(two, keep), "mutated", "SWAP.apply modified the batch")
                     require(isinstance(out, torch.Tensor) and tuple(out.shape) == (2,) and out.dtype.is_floating_point, "shape", f"SWAP.apply on a 2-row batch returned shape {tuple(out.shape)}")
                     Fm[i, j] = float(out[0])
+                    pr = pair_ref(i, j, A)
+                    require(abs(Fm[i, j] - pr) <= 1e-6 * abs(pr) + 1e-9, "pair-value",
+                            f"SWAP value of the pair ({i},{j}) for A={A} is {Fm[i, j]}, the product of the two importance weights is {pr}")
+                    held.append((out, out.detach().clone()))
+                    if len(held) > 4:
+                        o_old, o_val = held.pop(0)
+                        require(torch.equal(o_old, o_val), "earlier-result-changed", "a tensor returned by an earlier SWAP.apply of the same object changed after later applications")
                     if sc["type"] != "density" and (i + 2 * j + ai) % 5 == 0:
                         # wavefunction states accept integer / single-precision sample tensors: the estimator's value must not depend on it
                         for dt in (torch.int64, torch.float32):
